@@ -1232,6 +1232,12 @@ impl<'a, R: ?Sized + std::io::BufRead> Tokenizer<'a, R> {
             tag_str.as_ref()
         };
 
+        // N.B. An empty delimiter (`<<''`) matches an empty line, never the mere end of the
+        // input read so far.
+        if tag_str.is_empty() {
+            return Ok(false);
+        }
+
         if let Some(current_token_without_here_tag) = state.current_token().strip_suffix(tag_str) {
             // Make sure that was either the start of the here document, or there
             // was a newline between the preceding part
